@@ -252,7 +252,13 @@ func (x *Exec) apiThread(name string, script []APICall) {
 		g := &Gate{Thread: name, Kind: "API", Path: fmt.Sprintf("P%d", c.Plan), Detail: fmt.Sprintf("%d:%s", i, c.Op), Releasable: true}
 		w.park(g, nil)
 		w.Log(Event{Kind: "API", Thread: name, Path: g.Path, Out: c.String(), N: i})
+		w.mu.Lock()
+		w.apiCur[name] = c
+		w.mu.Unlock()
 		res := x.doCall(name, i, c)
+		w.mu.Lock()
+		delete(w.apiCur, name)
+		w.mu.Unlock()
 		e := Event{Kind: "APIRET", Thread: name, Path: g.Path, Out: c.String(), N: i}
 		if res.Err != nil {
 			e.Err = res.Err.Error()
@@ -317,12 +323,17 @@ func (x *Exec) doCall(name string, i int, c APICall) (res APIResult) {
 func (x *Exec) enabledOps(gates []*Gate) (labels []string, runningEnabled, forced bool) {
 	w := x.W
 	var rel []*Gate
-	invParked := false
+	invParked, seqInvParked, onlyInv := false, false, true
 	for _, g := range gates {
 		if g.Releasable {
 			rel = append(rel, g)
 			if g.Kind == "INV" {
 				invParked = true
+				if oi := w.Objs[g.Path]; isSeqAction(oi) {
+					seqInvParked = true
+				}
+			} else if g.Kind != "API" {
+				onlyInv = false
 			}
 		}
 	}
@@ -346,6 +357,10 @@ func (x *Exec) enabledOps(gates []*Gate) (labels []string, runningEnabled, force
 	tickOK := x.Ticks < x.Sc.maxTicks() && !x.tickDead
 	if len(rel) > 0 {
 		if tickOK && (x.Sc.Time || (x.Sc.TimeoutRace && invParked)) {
+			if x.Sc.SlowPlugins && seqInvParked && onlyInv {
+				// slow plugins: letting time pass is the default while only plugin calls are pending
+				return append([]string{"TICK"}, labels...), false, false
+			}
 			labels = append(labels, "TICK")
 		}
 		return labels, runningEnabled, false
